@@ -45,15 +45,28 @@ func vh_C07_L2_advance_only_over_abandoned() {
 			gaps = append(gaps, gapAckBlock{uint16(i + 1), uint16(i + 1)})
 		}
 	}
-	if vPick(2) == 0 {
+	start := uint32(0) // chunks below start are acknowledged cumulatively by the SACK
+	switch vPick(3) {
+	case 0:
 		vassert(vDeliver(a, &chunkSelectiveAck{cumulativeTSNAck: base, advertisedReceiverWindowCredit: 1 << 20, gapAckBlocks: gaps}) == nil, "SACK ok")
-	} else {
+	case 1:
+		// the SACK also moves the cumulative ack point over the first chunk (possibly across 2^32)
+		start = 1
+		var g2 []gapAckBlock
+		for _, g := range gaps {
+			if g.start >= 2 {
+				g2 = append(g2, gapAckBlock{g.start - 1, g.end - 1})
+			}
+		}
+		vassert(vDeliver(a, &chunkSelectiveAck{cumulativeTSNAck: base + 1, advertisedReceiverWindowCredit: 1 << 20, gapAckBlocks: g2}) == nil, "SACK ok")
+		abandoned[0] = false
+	case 2:
 		a.t3RTX.start(1000)
 		vassert(vFireRtx(a, a.t3RTX), "T3 expires")
 	}
 	adv := a.advancedPeerTSNAckPoint - base
-	vassert(adv <= 3, "the advanced ack point stays within the flight")
-	for i := 0; i < 3; i++ {
+	vassert(adv >= start && adv <= 3, "the advanced ack point stays within the flight and never falls behind the cumulative ack point")
+	for i := int(start); i < 3; i++ {
 		if uint32(i) < adv {
 			vassert(abandoned[i], "the advanced ack point never passes a chunk that is not abandoned")
 		}
@@ -61,8 +74,8 @@ func vh_C07_L2_advance_only_over_abandoned() {
 	if adv < 3 {
 		vassert(!abandoned[adv], "the advance stops only at a chunk that is not abandoned")
 	}
-	vassert(a.willSendForwardTSN == (adv > 0), "a forward-TSN is requested exactly when there is something to skip")
-	if adv > 0 {
+	vassert(a.willSendForwardTSN == (adv > start), "a forward-TSN is requested exactly when there is something to skip")
+	if adv > start {
 		var fwdStreams [3]bool // stream ids 1, 2 seen in the chunk
 		var newCum uint32
 		var seq1 uint16
